@@ -3,6 +3,7 @@ package sim
 import (
 	"context"
 	"encoding/hex"
+	"encoding/json"
 	"errors"
 	"fmt"
 	"runtime"
@@ -245,6 +246,16 @@ func (w *World) do1(a Action) {
 			val, _ = hex.DecodeString(a.Hex)
 		}
 		w.extPut(a.Key, val)
+	case "ext_tpl":
+		// a value derived from the live record (an outside party rewriting what it read)
+		w.mu.Lock()
+		cur := w.store.Get(a.Key)
+		w.mu.Unlock()
+		var sp structPayload
+		_ = json.Unmarshal(cur.Value, &sp)
+		rep := strings.NewReplacer("{val}", string(cur.Value), "{id}", sp.ID, "{tok}", sp.Token, "{prio}", fmt.Sprint(sp.Priority),
+			"{ID}", strings.ToUpper(sp.ID), "{TOK}", strings.ToUpper(sp.Token))
+		w.extPut(a.Key, []byte(rep.Replace(a.Str)))
 	case "ext_del":
 		w.extDel(a.Key)
 	case "expire":
